@@ -69,6 +69,12 @@ func errClass(err error) string {
 	if errors.Is(err, errStop) {
 		return "stop"
 	}
+	if errors.Is(err, nc.ErrWrite) {
+		return "write"
+	}
+	if errors.Is(err, context.Canceled) {
+		return "ctx"
+	}
 	var sp *stanza.Error
 	if errors.As(err, &sp) && sp != nil {
 		return "stanza:" + string(sp.Condition)
@@ -95,8 +101,12 @@ func errClass(err error) string {
 // ---- negotiators -------------------------------------------------------------------------
 
 func negotiator(ws bool, lang string, feats ...xmpp.StreamFeature) xmpp.Negotiator {
+	return negotiatorTee(ws, lang, nil, nil, feats...)
+}
+
+func negotiatorTee(ws bool, lang string, teeIn, teeOut io.Writer, feats ...xmpp.StreamFeature) xmpp.Negotiator {
 	cfg := func(*xmpp.Session, *xmpp.StreamConfig) xmpp.StreamConfig {
-		return xmpp.StreamConfig{Lang: lang, Features: feats}
+		return xmpp.StreamConfig{Lang: lang, Features: feats, TeeIn: teeIn, TeeOut: teeOut}
 	}
 	if ws {
 		return websocket.Negotiator(cfg)
@@ -317,7 +327,9 @@ func runHdr(r *common.Run, c hdrCase, class string) {
 			// our header answers an initiator: parse it as an initiator would
 			s2, _ = xmpp.NewSession(context.Background(), loc, orig, conn2, st, negotiator(c.ws, ""))
 		} else {
-			s2, _ = xmpp.NewSession(context.Background(), jid.JID{}, jid.JID{}, conn2, st|xmpp.Received, negotiator(c.ws, ""))
+			// (a receiving entity that expects exactly these addresses: the header must
+			// be accepted for its information to be recorded)
+			s2, _ = xmpp.NewSession(context.Background(), loc, orig, conn2, st|xmpp.Received, negotiator(c.ws, ""))
 		}
 	})
 	if p != "" {
@@ -364,6 +376,22 @@ func firstStart(b []byte) (xml.StartElement, error) {
 	}
 }
 
+func enumerate(alpha []string, n int, f func([]string)) {
+	cur := make([]string, n)
+	var rec func(i int)
+	rec = func(i int) {
+		if i == n {
+			f(append([]string(nil), cur...))
+			return
+		}
+		for _, a := range alpha {
+			cur[i] = a
+			rec(i + 1)
+		}
+	}
+	rec(0)
+}
+
 func uniqueAttrs(as []xml.Attr) map[xml.Name]bool {
 	m := map[xml.Name]bool{}
 	for _, a := range as {
@@ -372,12 +400,29 @@ func uniqueAttrs(as []xml.Attr) map[xml.Name]bool {
 	return m
 }
 
+// runTag compares the model's start-tag reader with encoding/xml on one start tag.
+func runTag(r *common.Run, tag string, class string) {
+	obs := "MALFORMED"
+	if t, err := firstStart([]byte(tag)); err == nil {
+		obs = canonStart(t)
+	}
+	line := "tag " + common.HexS(tag)
+	r.Line(line, obs)
+	r.Case(line, obs != "MALFORMED", class)
+}
+
 // ---- neg: header acceptance and address checks over restarts ---------------------------
 
 type negCase struct {
 	recv, ws, s2s bool
 	loc, orig     string   // addresses the session is created with ("" = not known)
 	hdrs          []string // raw bytes of the peer's successive headers
+	// hostile environment (operation "nege"): tee: StreamConfig.TeeIn/TeeOut are set;
+	// budget >= 0: the connection accepts that many writes and fails every later one;
+	// cancel >= 0: the context is done before the header with that index is awaited
+	env            bool
+	tee            bool
+	budget, cancel int
 }
 
 func infoStr(i stream.Info) string {
@@ -430,13 +475,36 @@ func runNeg(r *common.Run, c negCase, class string) {
 			chunks = append(chunks, nc.S(featuresXML(c.ws, sel)))
 		}
 	}
+	ctx, cancelCtx := context.WithCancel(context.Background())
+	defer cancelCtx()
+	if c.env && c.cancel >= 1 {
+		// the context is done before header #cancel is awaited: cancel when the chunk that
+		// precedes that header (the feature selection of the previous stream) is delivered
+		k := 2*c.cancel - 1
+		if k < len(chunks) {
+			inner := chunks[k]
+			chunks[k] = nc.Chunk{Dyn: func([]byte) []byte { cancelCtx(); return inner.Static }}
+		}
+	}
+	if c.env && c.cancel == 0 {
+		cancelCtx()
+	}
 	conn := nc.NewConn(chunks...)
+	if c.env && c.budget >= 0 {
+		conn.FailWriteCall = c.budget + 1
+	}
+	var teeIn, teeOut bytes.Buffer
+	neg := negotiator(c.ws, "", feat)
+	if c.env && c.tee {
+		neg = negotiatorTee(c.ws, "", &teeIn, &teeOut, feat)
+	}
 	var err error
+	var sess *xmpp.Session
 	p := common.Recover(func() {
 		if c.recv {
-			_, err = xmpp.NewSession(context.Background(), loc, orig, conn, st|xmpp.Received, negotiator(c.ws, "", feat))
+			sess, err = xmpp.NewSession(ctx, loc, orig, conn, st|xmpp.Received, neg)
 		} else {
-			_, err = xmpp.NewSession(context.Background(), loc, orig, conn, st, negotiator(c.ws, "", feat))
+			sess, err = xmpp.NewSession(ctx, loc, orig, conn, st, neg)
 		}
 	})
 	// jid table of every to/from value that occurs
@@ -480,6 +548,16 @@ func runNeg(r *common.Run, c negCase, class string) {
 		role = "r"
 	}
 	line := fmt.Sprintf("neg %s %s %s %s %s %s %s", role, common.B(c.ws), common.B(c.s2s), hx(c.loc), hx(c.orig), common.Join(tl, ","), strings.Join(toks, " "))
+	if c.env {
+		b, k := "-", "-"
+		if c.budget >= 0 {
+			b = fmt.Sprint(c.budget)
+		}
+		if c.cancel >= 0 {
+			k = fmt.Sprint(c.cancel)
+		}
+		line = fmt.Sprintf("nege %s %s %s %s %s %s %s %s %s %s", role, common.B(c.ws), common.B(c.s2s), hx(c.loc), hx(c.orig), common.Join(tl, ","), common.B(c.tee), b, k, strings.Join(toks, " "))
+	}
 	if p != "" {
 		r.Line(line, "PANIC")
 		r.Case(line, true, class+":panic")
@@ -513,12 +591,52 @@ func runNeg(r *common.Run, c negCase, class string) {
 	if ec != "stop" {
 		verdicts = append(verdicts, "err:"+ec)
 	}
+	// the addresses the session reports when the constructor returns
+	finalTo, finalFrom := "?", "?"
+	if sess != nil {
+		finalTo, finalFrom = sess.In().To.String(), sess.In().From.String()
+	}
+	verdicts = append(verdicts, "final:"+hx(finalTo)+","+hx(finalFrom))
 	obs := strings.Join(verdicts, " ")
 	r.Line(line, obs)
 	r.Case(line, true, class+":"+ec)
+	lines := []string{r.Prop + " " + line}
+
+	// ---- oracle: a refused header never replaces the established addresses ----
+	if sess != nil {
+		wantTo, wantFrom := loc.String(), orig.String()
+		if !c.recv {
+			wantTo, wantFrom = orig.String(), loc.String()
+		}
+		if n := len(snaps); n > 0 {
+			wantTo, wantFrom = snaps[n-1].in.To.String(), snaps[n-1].in.From.String()
+		}
+		// a header that passed all checks but whose answer could not be written, or after
+		// which the session was stopped, is an accepted header: only refusals count
+		refused := ec != "stop" && ec != "write" && ec != "nil"
+		if refused && (finalTo != wantTo || finalFrom != wantFrom) {
+			r.Fail("refused-header-keeps-addresses", "in-info:"+strings.SplitN(ec, ":", 2)[0], lines,
+				fmt.Sprintf("the header was refused (%s) but the session now reports To=%q From=%q, established were To=%q From=%q", ec, finalTo, finalFrom, wantTo, wantFrom))
+		}
+		if sess.LocalAddr().String() != finalTo || sess.RemoteAddr().String() != finalFrom {
+			r.Fail("refused-header-keeps-addresses", "localaddr-differs-from-in", lines, "LocalAddr/RemoteAddr differ from In().To/From")
+		}
+	}
+	if c.env && c.tee {
+		if !bytes.Equal(teeOut.Bytes(), conn.Written()) {
+			r.Fail("tee-faithful", "out", lines, fmt.Sprintf("TeeOut got %q, the connection %q", teeOut.String(), conn.Written()))
+		}
+		if !bytes.Equal(teeIn.Bytes(), conn.R.Bytes()) {
+			r.Fail("tee-faithful", "in", lines, fmt.Sprintf("TeeIn got %q, the connection delivered %q", teeIn.String(), conn.R.String()))
+		}
+	}
+	if c.env {
+		// with a hostile environment the generator's ground truth for acceptance does not apply
+		return
+	}
 
 	// ---- oracle (independent of the model), on well-understood inputs only: see checkNeg
-	checkNeg(r, c, snaps, ec, []string{r.Prop + " " + line})
+	checkNeg(r, c, snaps, ec, lines)
 }
 
 // hdrFacts is what the generator knows about a header it built (ground truth for the
@@ -819,6 +937,11 @@ func runBindClient(r *common.Run, local, reply, a, b string, class string) {
 }
 
 func runBindServer(r *common.Run, s2s bool, remote, reqid, reqres, cb, a string, class string) {
+	runBindServerTF(r, s2s, remote, reqid, reqres, cb, a, "", "", class)
+}
+
+// runBindServerTF: the request additionally carries to / from attributes ("" = absent).
+func runBindServerTF(r *common.Run, s2s bool, remote, reqid, reqres, cb, a, reqTo, reqFrom string, class string) {
 	rj, err := jid.Parse(remote)
 	if err != nil {
 		return
@@ -877,7 +1000,14 @@ func runBindServer(r *common.Run, s2s bool, remote, reqid, reqres, cb, a string,
 	if reqres != "NONE" {
 		inner = "<bind xmlns='" + nsBind + "'><resource>" + nc.Esc(reqres) + "</resource></bind>"
 	}
-	req := "<iq type='set' id='" + nc.Esc(reqid) + "'>" + inner + "</iq>"
+	addr := ""
+	if reqTo != "" {
+		addr += " to='" + nc.Esc(reqTo) + "'"
+	}
+	if reqFrom != "" {
+		addr += " from='" + nc.Esc(reqFrom) + "'"
+	}
+	req := "<iq type='set' id='" + nc.Esc(reqid) + "'" + addr + ">" + inner + "</iq>"
 	conn := nc.NewConn(nc.S(nc.Header(xmlns, "", rj.String(), domain.String())), nc.S(req))
 	var s *xmpp.Session
 	var serr error
@@ -891,7 +1021,13 @@ func runBindServer(r *common.Run, s2s bool, remote, reqid, reqres, cb, a string,
 	if reqres != "NONE" {
 		resField = hx(reqres)
 	}
-	line := fmt.Sprintf("binds %s %s %s %s %s %s %s", common.B(s2s), hx(remote), hx(reqid), resField, cb, hx(a), cbJid)
+	tf := func(raw string) string {
+		if raw == "" {
+			return "-"
+		}
+		return canonJ(raw)
+	}
+	line := fmt.Sprintf("binds %s %s %s %s %s %s %s %s %s", common.B(s2s), hx(remote), hx(reqid), resField, cb, hx(a), cbJid, tf(reqTo), tf(reqFrom))
 	lines := []string{r.Prop + " " + line}
 	if p != "" {
 		r.Line(line, "PANIC")
@@ -901,6 +1037,7 @@ func runBindServer(r *common.Run, s2s bool, remote, reqid, reqres, cb, a string,
 	}
 	streams, perr := nc.ParseWritten(conn.Written())
 	typ, id, jtxt, cond := "NOREPLY", "-", "-", "-"
+	repTo, repFrom := "", ""
 	rawJ := ""
 	nsOK := true
 	errInBind := false
@@ -913,6 +1050,8 @@ func runBindServer(r *common.Run, s2s bool, remote, reqid, reqres, cb, a string,
 			typ, _ = e.AttrVal("type")
 			v, _ := e.AttrVal("id")
 			id = hx(v)
+			repTo, _ = e.AttrVal("to")
+			repFrom, _ = e.AttrVal("from")
 			if bd, ok := e.Child("bind"); ok {
 				if je, ok := bd.Child("jid"); ok {
 					rawJ = je.Text
@@ -938,14 +1077,44 @@ func runBindServer(r *common.Run, s2s bool, remote, reqid, reqres, cb, a string,
 	if cbErr != nil && serr != nil && errors.Is(serr, cbErr) {
 		ec = "cberr"
 	}
+	for _, raw := range []string{reqTo, reqFrom} {
+		if raw == "" {
+			continue
+		}
+		if _, perr := jid.Parse(raw); perr != nil && serr != nil && strings.Contains(serr.Error(), perr.Error()) {
+			ec = "jiderr"
+		}
+	}
 	ready := s != nil && s.State()&xmpp.Ready != 0
-	obs := fmt.Sprintf("%s %s %s %s %s %s %s", typ, id, jtxt, cond, ec, common.B(ready), common.Join(cbArgs, ","))
+	obs := fmt.Sprintf("%s %s %s %s %s %s %s %s %s", typ, id, jtxt, cond, ec, common.B(ready), common.Join(cbArgs, ","), hx(repTo), hx(repFrom))
 	r.Line(line, obs)
 	r.Case(line, true, class+":"+ec)
 
 	// ---- oracle ----
 	if perr != nil {
 		r.Fail("bind-reply", "malformed-output", lines, perr.Error())
+	}
+	if typ != "NOREPLY" {
+		// the reply goes back where the request came from
+		cto, e1 := jidOrZero(reqTo)
+		cfrom, e2 := jidOrZero(reqFrom)
+		if e1 == nil && e2 == nil && (repTo != cfrom.String() || repFrom != cto.String()) {
+			r.Fail("bind-reply", "addresses-not-echoed", lines, fmt.Sprintf("request to=%q from=%q, reply to=%q from=%q", reqTo, reqFrom, repTo, repFrom))
+		}
+	}
+	if reqTo != "" || reqFrom != "" {
+		if _, e1 := jidOrZero(reqTo); e1 != nil && (typ != "NOREPLY" || ready) {
+			r.Fail("bind-reply", "invalid-request-address-accepted", lines, "request with an invalid to attribute was answered")
+		}
+		if _, e2 := jidOrZero(reqFrom); e2 != nil && (typ != "NOREPLY" || ready) {
+			r.Fail("bind-reply", "invalid-request-address-accepted", lines, "request with an invalid from attribute was answered")
+		}
+		if _, e1 := jidOrZero(reqTo); e1 != nil {
+			return
+		}
+		if _, e2 := jidOrZero(reqFrom); e2 != nil {
+			return
+		}
 	}
 	wantRes := reqres
 	if wantRes == "NONE" {
@@ -1227,6 +1396,26 @@ func Run(r *common.Run) error {
 		runHdr(r, hdrCase{recv: rnd.Bool(), ws: rnd.Bool(), s2s: rnd.Bool(), loc: "example.net", orig: j.String(), lang: lang}, "hdr-random")
 	}
 
+	// ---- tag: attribute values, line ends and references, exhaustive small scope ----
+	pieces := []string{"a", "\r", "\n", "\t", " ", "&#xD;", "&#xA;", "&#13;", "&#9;", "&amp;", "&lt;", "&quot;", "é", "<", "&", "&bogus;", "&#x110000;", "&#0;"}
+	maxLen := r.Pick(3, 4)
+	for _, q := range []string{"'", "\""} {
+		other := "\""
+		if q == "\"" {
+			other = "'"
+		}
+		ps := append(append([]string{}, pieces...), other)
+		for n := 0; n <= maxLen; n++ {
+			if n == 4 {
+				ps = []string{"a", "\r", "\n", "\t", "&#xD;", "&#xA;", "&amp;", other}
+			}
+			enumerate(ps, n, func(v []string) {
+				runTag(r, "<a x="+q+strings.Join(v, "")+q+" y='1'>", "tag")
+			})
+		}
+	}
+	r.Exhaustive = append(r.Exhaustive, fmt.Sprintf("attribute values: every sequence of <= %d pieces out of raw CR/LF/TAB/space, character references to them, entities, the other quote, non-ASCII, and malformed pieces, both quote styles: model reader vs encoding/xml", maxLen))
+
 	// ---- neg: single headers, every variant x role x framing ----
 	for _, ws := range []bool{false, true} {
 		for _, recv := range []bool{false, true} {
@@ -1282,6 +1471,31 @@ func Run(r *common.Run) error {
 		}
 	}
 
+	// ---- header exchange in a hostile environment: tee, write failures, cancellation ----
+	for _, ws := range []bool{false, true} {
+		for _, recv := range []bool{false, true} {
+			from, to := locA, origA
+			if recv {
+				from, to = origA, locA
+			}
+			good := mkHdr(ws, hv{open: true, version: "1.0", xmlns: "jabber:client", id: "s1", to: to, from: from})
+			bad := mkHdr(ws, hv{open: true, version: "1.0", xmlns: "jabber:client", id: "s1", to: to, from: "other.example"})
+			oldv := mkHdr(ws, hv{open: true, version: "0.9", xmlns: "jabber:client", id: "s1", to: "other.example", from: from})
+			for _, hs := range [][]string{{good}, {good, good}, {good, good, good}, {good, bad}, {bad}, {good, oldv}, {oldv}} {
+				for _, tee := range []bool{false, true} {
+					for b := -1; b <= 5; b++ {
+						for k := -1; k <= 2; k++ {
+							if !tee && b < 0 && k < 0 {
+								continue
+							}
+							runNeg(r, negCase{recv: recv, ws: ws, s2s: false, loc: locA, orig: origA, hdrs: hs, env: true, tee: tee, budget: b, cancel: k}, "neg-env")
+						}
+					}
+				}
+			}
+		}
+	}
+
 	// ---- bind, initiating side ----
 	locals := []string{"user@example.net/home", "user@example.net", "user@example.net/x'y&<z>", "user@example.net/ünï"}
 	assigned := []string{"user@example.net/home", "user@example.net/srv-assigned", "other@example.org/x", "user@example.net", "", "a@@b", "user@example.net/q'\"&<"}
@@ -1321,6 +1535,19 @@ func Run(r *common.Run) error {
 			}
 		}
 	}
+	for _, s2s := range []bool{false, true} {
+		for _, to := range []string{"", "example.net", "EXAMPLE.net", "a@@b", "x'y@example.net/q<"} {
+			for _, from := range []string{"", "user@example.net/old", "other@example.org", "a@@b"} {
+				for _, cb := range []string{"nil", "echo", "serr", "err"} {
+					a := ""
+					if cb == "serr" {
+						a = "conflict"
+					}
+					runBindServerTF(r, s2s, "user@example.net", "i1", "home", cb, a, to, from, "binds-tofrom")
+				}
+			}
+		}
+	}
 	r.Exhaustive = append(r.Exhaustive, "every header variant (versions, namespaces, ids, addresses, element names, stream errors, junk prefixes) x role x framing x s2s, single and after a restart; every bind reply class x local address x assigned address; every bind request x callback kind")
 	return nil
 }
@@ -1348,15 +1575,47 @@ func replayLine(r *common.Run, l string) error {
 			runHdr(r, hdrCase{recv: true, ws: ws, s2s: s2s, loc: from, orig: to, lang: lang}, "replay")
 		}
 		return nil
+	case f[0] == "tag" && len(f) == 2:
+		runTag(r, un(f[1]), "replay")
+		return nil
 	case f[0] == "bindc" && len(f) == 7:
 		runBindClient(r, un(f[1]), f[2], un(f[3]), un(f[4]), "replay")
 		return nil
-	case f[0] == "binds" && len(f) == 8:
+	case f[0] == "binds" && len(f) == 10:
 		res := "NONE"
 		if f[4] != "NONE" {
 			res = un(f[4])
 		}
-		runBindServer(r, f[1] == "1", un(f[2]), un(f[3]), res, f[5], un(f[6]), "replay")
+		// the raw to/from of the request are not in the line (only their canonical forms):
+		// replay the canonical forms
+		tf := func(x string) string {
+			if x == "-" {
+				return ""
+			}
+			if x == "!" {
+				return "a@@b"
+			}
+			return un(x)
+		}
+		runBindServerTF(r, f[1] == "1", un(f[2]), un(f[3]), res, f[5], un(f[6]), tf(f[8]), tf(f[9]), "replay")
+		return nil
+	case f[0] == "nege" && len(f) >= 11:
+		var hs []string
+		for _, t := range f[10:] {
+			i := strings.Index(t, "|")
+			if i < 0 {
+				return fmt.Errorf("bad header field %q", t)
+			}
+			hs = append(hs, un(t[:i]))
+		}
+		c := negCase{recv: f[1] == "r", ws: f[2] == "1", s2s: f[3] == "1", loc: un(f[4]), orig: un(f[5]), hdrs: hs, env: true, tee: f[7] == "1", budget: -1, cancel: -1}
+		if f[8] != "-" {
+			fmt.Sscanf(f[8], "%d", &c.budget)
+		}
+		if f[9] != "-" {
+			fmt.Sscanf(f[9], "%d", &c.cancel)
+		}
+		runNeg(r, c, "replay")
 		return nil
 	case f[0] == "neg" && len(f) >= 8:
 		var hs []string
